@@ -73,7 +73,7 @@ Writes == {"write"}
 OpensFifo(t, segs) == LET w == Resolve(t, segs, TRUE) IN w.r = "node" /\ t[w.p].k = "p"
 Blocks(t, o) ==
     \/ Escapes(t, o.p) \/ (o.op \in {"copy", "copy_lim", "fcopy", "rename"} /\ Escapes(t, o.q))      \* would act outside the private root
-    \/ o.op \in Writes \cup {"oopen", "read", "copy", "copy_lim", "fcopy", "fcopy_x", "remove_dir_all", "read_dir"} /\ OpensFifo(t, o.p)
+    \/ o.op \in Writes \cup {"oopen", "write_lim", "read", "copy", "copy_lim", "fcopy", "fcopy_x", "remove_dir_all", "read_dir"} /\ OpensFifo(t, o.p)
     \/ o.op \in {"copy", "copy_lim", "fcopy"} /\ OpensFifo(t, o.q)
 Ops(t) == {o \in {Op1(op, p) : op \in Unary, p \in Targets}
                  \cup {OpC(op, p, c) : op \in Writes, p \in Targets, c \in {S, M, Empty}}
@@ -83,6 +83,11 @@ Ops(t) == {o \in {Op1(op, p) : op \in Unary, p \in Targets}
                  \cup (IF OpSet = "all" THEN {[op |-> "copy_lim", p |-> p, q |-> q, c |-> [n |-> lim, b |-> <<>>, h |-> ""], f |-> <<>>] :
                                                  p \in {<<"b", "a">>, <<"c">>, <<"a">>}, q \in {<<"a">>, <<"b", "a">>, <<"a", "b">>, <<"b", "x">>},
                                                  lim \in {1, 3}} ELSE {})
+                 \cup (IF OpSet = "all" THEN {[op |-> "write_lim", p |-> p, q |-> <<>>, c |-> c, f |-> f] :
+                                                 p \in {<<"a">>, <<"b", "a">>, <<"c">>, <<"a", "b">>}, c \in {L, S},
+                                                 f \in {<<>>, <<FALSE, FALSE, TRUE, FALSE, TRUE, FALSE>>,       \* append + create
+                                                        <<FALSE, TRUE, FALSE, FALSE, TRUE, FALSE>>,        \* write + create (overlay)
+                                                        <<FALSE, TRUE, FALSE, TRUE, FALSE, FALSE>>}} ELSE {})   \* write + truncate
                  \cup (IF OpSet = "all" THEN {[op |-> "fcopy", p |-> p, q |-> q, c |-> [n |-> k, b |-> <<>>, h |-> ""], f |-> <<>>] :
                                                  p \in {<<"b", "a">>, <<"c">>}, q \in {<<"a">>, <<"a", "b">>, <<"b", "x">>}, k \in {0, 2, 9}}
                                          \cup {[op |-> "fcopy_x", p |-> p, q |-> <<>>, c |-> [n |-> k, b |-> <<>>, h |-> ""], f |-> <<>>] :
